@@ -29,8 +29,23 @@ build() {
 if ! build; then
 	echo "HARNESS-ERROR: build failed"; cat .bin/build.log; exit 2
 fi
+# C18 needs two more binaries, both rebuilt from the current tree: the instrumented
+# build (scheduling points + shared-state census, generated overlay) and the -race build.
+build_c18() {
+	R="${VERIF_REPO:-/repo}"
+	go build -o .bin/ivginst ./cmd/ivginst 2>.bin/build-inst.log || return 1
+	.bin/ivginst "$R" ".bin/inst$SUF" ".bin/overlay-inst$SUF.json" .bin/overlay.json >>.bin/build-inst.log 2>&1 || return 1
+	go build $MODFLAG -tags "verif verifsched" -overlay ".bin/overlay-inst$SUF.json" -o ".bin/ivgmc-inst$SUF" ./cmd/ivgmc 2>>.bin/build-inst.log || return 1
+	CGO_ENABLED=1 go build $MODFLAG -race -o ".bin/ivgmc-race$SUF" ./cmd/ivgrace 2>.bin/build-race.log || return 1
+}
+SUF=""; [ -n "$MODFLAG" ] && SUF="-alt"
+if [ "$1" = "C18" ] || [ "$1" = "build-all" ] || { [ "$1" = "replay" ] && case "$2" in *C18*) true;; *) false;; esac; }; then
+	if ! build_c18; then
+		echo "HARNESS-ERROR: C18 build failed"; cat .bin/build-inst.log .bin/build-race.log 2>/dev/null | tail -20; exit 2
+	fi
+fi
 case "$1" in
-build) exit 0 ;;
+build|build-all) exit 0 ;;
 replay) exec $BIN replay "$2" ;;
 selftest) shift; exec $BIN selftest "$@" ;;
 *) exec $BIN check "$1" -tier "${2:-quick}" ;;
